@@ -124,4 +124,97 @@ theorem coil_roundtrip (b : Bool) : u16CoilToBool (boolToU16Coil b) = .ok b := b
 example : (Request.writeMultipleCoils 5 ⟨[0xCD, 0x01], 9⟩).encode (List.replicate 8 0) =
     .ok (8, [0x0F, 0, 5, 0, 9, 2, 0xCD, 0x01]) := by decide
 
+/-! ### the kinds without an encoding (open finding D19) -/
+
+/-- **coverage of `req_fc_first_byte` / `rsp_fc_first_byte`, stated precisely.**  They hold for EVERY
+    value for which `encode` succeeds on the buffer given — and a value has a buffer on which `encode`
+    succeeds exactly when it is `Encodable` (an implemented kind whose byte count fits its field and
+    whose container holds the bytes its count promises). -/
+theorem fc_first_byte_coverage :
+    (∀ r : Request, (∃ buf n out, r.encode buf = .ok (n, out)) ↔ r.Encodable) ∧
+    (∀ r : Response, (∃ buf n out, r.encode buf = .ok (n, out)) ↔ r.Encodable) ∧
+    (∀ (r : Request) (buf : Bytes) (n : Nat) (out : Bytes), r.encode buf = .ok (n, out) →
+      out[0]? = some r.fc.value) ∧
+    (∀ (r : Response) (buf : Bytes) (n : Nat) (out : Bytes), r.encode buf = .ok (n, out) →
+      out[0]? = some r.fc.value) := by
+  refine ⟨fun r => ⟨?_, ?_⟩, fun r => ⟨?_, ?_⟩, req_fc_first_byte, rsp_fc_first_byte⟩
+  · rintro ⟨buf, n, out, h⟩; exact Request.encodable_of_ok r buf _ h
+  · intro he
+    refine ⟨List.replicate r.image.length 0, r.image.length, r.image ++ (List.replicate r.image.length 0).drop r.image.length, ?_⟩
+    rw [Request.encode_eq r _ he, if_neg (by simp)]
+  · rintro ⟨buf, n, out, h⟩; exact Response.encodable_of_ok r buf _ h
+  · intro he
+    refine ⟨List.replicate r.image.length 0, r.image.length, r.image ++ (List.replicate r.image.length 0).drop r.image.length, ?_⟩
+    rw [Response.encode_eq r _ he, if_neg (by simp)]
+
+/-- **open finding D19: the nine serial-line-only kinds have a function code but no encoding.**
+    `Request::{ReadExceptionStatus, Diagnostics, GetCommEventCounter, GetCommEventLog, ReportServerId}` and
+    `Response::{Diagnostics, GetCommEventCounter, GetCommEventLog, ReportServerId}` (every field value):
+    `FunctionCode::from` gives the definite code 0x07 / 0x08 / 0x0B / 0x0C / 0x11, while `pdu_len` / `encode` are
+    `todo!()` / `unimplemented!()` — `.panic` for EVERY buffer.  So the hypothesis `encode = Ok` of
+    `req_fc_first_byte` / `rsp_fc_first_byte` is unsatisfiable for them: the clause "the function code derived
+    from any request or response equals the first byte of its encoding" of C18 is proved for every value that
+    HAS an encoding (`fc_first_byte_coverage`) and says nothing about these nine, which have none.
+
+    The clause read literally as "every request / response HAS an encoding, and its first byte is the code",
+      ∀ r : Request, ∃ buf n out, r.encode buf = .ok (n, out) ∧ out[0]? = some r.fc.value,
+    is FALSE for the model of the unedited crate (take `r = Request.readExceptionStatus`: last-but-one clause). -/
+theorem unimplemented_kinds_have_code_but_no_encoding :
+    (Request.readExceptionStatus.fc = .readExceptionStatus ∧ Request.readExceptionStatus.fc.value = 0x07) ∧
+    (∀ s d, (Request.diagnostics s d).fc = .diagnostics ∧ (Request.diagnostics s d).fc.value = 0x08) ∧
+    (Request.getCommEventCounter.fc = .getCommEventCounter ∧ Request.getCommEventCounter.fc.value = 0x0B) ∧
+    (Request.getCommEventLog.fc = .getCommEventLog ∧ Request.getCommEventLog.fc.value = 0x0C) ∧
+    (Request.reportServerId.fc = .reportServerId ∧ Request.reportServerId.fc.value = 0x11) ∧
+    (∀ d, (Response.diagnostics d).fc = .diagnostics ∧ (Response.diagnostics d).fc.value = 0x08) ∧
+    (∀ s c, (Response.getCommEventCounter s c).fc = .getCommEventCounter ∧
+      (Response.getCommEventCounter s c).fc.value = 0x0B) ∧
+    (∀ s c m ev, (Response.getCommEventLog s c m ev).fc = .getCommEventLog ∧
+      (Response.getCommEventLog s c m ev).fc.value = 0x0C) ∧
+    (∀ i run, (Response.reportServerId i run).fc = .reportServerId ∧
+      (Response.reportServerId i run).fc.value = 0x11) ∧
+    (∀ buf : Bytes,
+      Request.readExceptionStatus.encode buf = .panic ∧
+      (∀ s d, (Request.diagnostics s d).encode buf = .panic) ∧
+      Request.getCommEventCounter.encode buf = .panic ∧
+      Request.getCommEventLog.encode buf = .panic ∧
+      Request.reportServerId.encode buf = .panic ∧
+      (∀ d, (Response.diagnostics d).encode buf = .panic) ∧
+      (∀ s c, (Response.getCommEventCounter s c).encode buf = .panic) ∧
+      (∀ s c m ev, (Response.getCommEventLog s c m ev).encode buf = .panic) ∧
+      (∀ i run, (Response.reportServerId i run).encode buf = .panic)) ∧
+    -- … and these are the ONLY values on which `encode` panics whatever the buffer
+    (∀ r : Request, (∀ buf, r.encode buf = .panic) ↔
+      (r = .readExceptionStatus ∨ (∃ s d, r = .diagnostics s d) ∨ r = .getCommEventCounter ∨
+        r = .getCommEventLog ∨ r = .reportServerId)) ∧
+    (∀ r : Response, (∀ buf, r.encode buf = .panic) ↔
+      ((∃ d, r = .diagnostics d) ∨ (∃ s c, r = .getCommEventCounter s c) ∨
+        (∃ s c m ev, r = .getCommEventLog s c m ev) ∨ (∃ i run, r = .reportServerId i run))) := by
+  refine ⟨⟨rfl, rfl⟩, fun _ _ => ⟨rfl, rfl⟩, ⟨rfl, rfl⟩, ⟨rfl, rfl⟩, ⟨rfl, rfl⟩, fun _ => ⟨rfl, rfl⟩,
+    fun _ _ => ⟨rfl, rfl⟩, fun _ _ _ _ => ⟨rfl, rfl⟩, fun _ _ => ⟨rfl, rfl⟩, fun buf => ?_, fun r => ?_, fun r => ?_⟩
+  · exact ⟨rfl, fun _ _ => rfl, rfl, rfl, rfl, fun _ => rfl, fun _ _ => rfl, fun _ _ _ _ => rfl, fun _ _ => rfl⟩
+  · constructor
+    · intro h
+      have h0 := h []
+      cases r <;> first
+        | (simp [Request.encode, Request.pduLen] at h0; done)
+        | (simp [Request.encode, Request.pduLen] at h0; rw [if_pos (by omega)] at h0; cases h0)
+        | simp
+    · intro h
+      rcases h with rfl | ⟨s, d, rfl⟩ | rfl | rfl | rfl <;> intro buf <;> rfl
+  · constructor
+    · intro h
+      have h0 := h []
+      cases r <;> first
+        | (simp [Response.encode, Response.pduLen] at h0; done)
+        | (simp [Response.encode, Response.pduLen] at h0; rw [if_pos (by omega)] at h0; cases h0)
+        | simp
+    · intro h
+      rcases h with ⟨d, rfl⟩ | ⟨s, c, rfl⟩ | ⟨s, c, m, ev, rfl⟩ | ⟨i, run, rfl⟩ <;> intro buf <;> rfl
+
+/-- so no `(n, out)` satisfies the hypothesis of `req_fc_first_byte` / `rsp_fc_first_byte` for them -/
+example (buf : Bytes) (n : Nat) (out : Bytes) : Request.readExceptionStatus.encode buf ≠ .ok (n, out) := by
+  intro h; cases h
+example : Request.readExceptionStatus.encode (List.replicate 8 0) = .panic ∧
+    (Response.getCommEventCounter 0xFFFF 8).encode (List.replicate 8 0) = .panic ∧
+    (Response.getCommEventCounter 0xFFFF 8).fc.value = 0x0B := by decide +kernel
 end Modbus.C18
